@@ -849,4 +849,114 @@ example : ArgConv.Accepted (⟨[[1, 0, 0, 1, 0, 0, 0, 0], [0, 1, 1, 0, 0, 0, 0, 
   simp only [List.mem_cons, List.not_mem_nil, or_false] at he
   rcases he with rfl | rfl | rfl <;> exact ⟨rfl, by decide⟩
 
+/-! ## Late theorems: the 1-D `states` call form and the batched index conversion -/
+
+/-- **C04_vector_states_outcome.** `states` given as ONE 1-D vector instead of a batch (`vectorStatesOutcome`, the outcome class the
+harness compares with). The classification itself is by construction of the model: any rotated site → `RuntimeError` on both fast
+paths; all-`Z` basis → `rotate_rho_probs` is refused (`ValueError`) and `rotate_psi_inner_prod` is the ONLY accepted combination.
+What is proved against the batched definitions is that the accepted case returns the batch-of-one value: for a basis pattern without
+a rotated site (`anyRotated = (finRange n).any rot = false`, for every `n`, every per-site matrices, every ψ, σ)
+`_rotate_basis_state` enumerates the single state σ with coefficient one, and both the enumerated (`rotatePsiInnerProdE`) and the
+filtered (`rotatePsiInnerProd`) batched amplitude of the row σ are EXACTLY `ψ(σ)` — the single amplitude the 1-D form returns; from
+the dictionary resolution on (`rotatePsiInnerProdD`) an all-`Z` basis string succeeds with `ψ(σ)` for EVERY dictionary (no letter is
+looked up, so not even a dictionary without `Z` raises `KeyError`). -/
+theorem C04_vector_states_outcome (us : Fin n → M2 ℝ) (rot : Fin n → Bool) (ψ : (Fin n → Bool) → C ℝ) (σ : Fin n → Bool)
+    (given own : Option (UDict ℝ)) (basis : Fin n → Char) :
+    (∀ p r, vectorStatesOutcome p r = .ok () ↔ p = .innerProd ∧ r = false)
+    ∧ (∀ p, vectorStatesOutcome p true = .error .RuntimeError)
+    ∧ vectorStatesOutcome .rhoProbs false = .error .ValueError
+    ∧ (vectorStatesOutcome .innerProd ((List.finRange n).any rot) = .ok () ↔ ∀ j, rot j = false)
+    ∧ ((∀ j, rot j = false) →
+        expandStates n rot σ = [σ] ∧ rotateBasisState n us rot σ = [(C.one, σ)]
+        ∧ rotatePsiInnerProdE n us rot ψ σ = ψ σ ∧ rotatePsiInnerProd n us rot ψ σ = ψ σ)
+    ∧ ((∀ j, basis j = 'Z') → rotatePsiInnerProdD given own basis ψ σ = .ok (ψ σ)) := by
+  have key : ∀ (us : Fin n → M2 ℝ) (rot : Fin n → Bool), (∀ j, rot j = false) →
+      expandStates n rot σ = [σ] ∧ rotateBasisState n us rot σ = [(C.one, σ)]
+        ∧ rotatePsiInnerProdE n us rot ψ σ = ψ σ ∧ rotatePsiInnerProd n us rot ψ σ = ψ σ := by
+    intro us rot hr
+    have hrot : rot = fun _ => false := funext hr
+    subst hrot
+    have hE : expandStates n (fun _ => false) σ = [σ] := by simp [expandStates]
+    have hc : ∀ τ, rotCoeff n us (fun _ => false) σ τ = C.one := by
+      intro τ; apply toC_injective; simp [rotCoeff]
+    have hv : rotatePsiInnerProdE n us (fun _ => false) ψ σ = ψ σ := by
+      apply toC_injective
+      simp [rotatePsiInnerProdE, hE, hc]
+    refine ⟨hE, ?_, hv, ?_⟩
+    · simp [rotateBasisState, hE, hc]
+    · rw [← rotatePsiInnerProdE_eq]; exact hv
+  refine ⟨?_, ?_, rfl, ?_, key us rot, ?_⟩
+  · intro p r; cases p <;> cases r <;> simp [vectorStatesOutcome]
+  · intro p; cases p <;> rfl
+  · cases hany : (List.finRange n).any rot
+    · simp only [vectorStatesOutcome, Bool.false_eq_true, if_false, true_iff]
+      intro j
+      have := List.any_eq_false.mp hany j (List.mem_finRange j)
+      simpa using this
+    · simp only [vectorStatesOutcome, if_true, reduceCtorEq, false_iff, not_forall]
+      obtain ⟨j, -, hj⟩ := List.any_eq_true.mp hany
+      exact ⟨j, by simp [hj]⟩
+  · intro hZ
+    have hr : ∀ j, rotOf basis j = false := fun j => by simp [rotOf, hZ j]
+    have hs : siteUs (unitariesOf given own) (rotOf basis) basis
+        = .ok (fun j => ((unitariesOf given own).lookup (basis j)).getD dZ) := by
+      simp [siteUs, hr]
+    simp only [rotatePsiInnerProdD, hs]
+    exact congrArg Except.ok (key _ _ hr).2.2.1
+
+/-- the accepted case of `C04_vector_states_outcome` on a non-trivial instance: 2 sites, basis `ZZ`, an EMPTY-lookup dictionary
+(only `X` defined, by a non-unitary matrix), ψ = the index of the state as a complex number: the value for σ = (1,0) is ψ(σ) = 2 -/
+example : rotatePsiInnerProdD (some [('X', fun _ _ => ((7 : ℝ), 0))]) none (fun _ : Fin 2 => 'Z')
+      (fun τ => ((if τ 0 then 2 else 0) + (if τ 1 then 1 else 0), 0)) (fun j => j = 0) = .ok (2, 0) := by
+  rw [(C04_vector_states_outcome (fun _ => dZ) (fun _ => false) _ _ _ none _).2.2.2.2.2 (fun _ => rfl)]
+  simp
+
+/-- **C04_convert_basis_batch.** `_convert_basis_element_to_index` on a batch (`convertBasisBatch`, the `(N, n)` `matmul` with
+`powers`): for EVERY batch of 0/1 rows the result has one entry per row and entry `i` is `convertBasisElementToIndex` of row `i`
+(by construction of the model: the row-wise map) = the big-endian index `Σ_j row[j]·2^(len-1-j)` of that row, which is `< 2^len`;
+rows of equal length with equal entries are equal (the conversion loses nothing); the conversion of a batch of function-form states
+is `idxOf` row by row (the position convention of every array of C04, `C04_index_convention`); and the batch
+`generate_hilbert_space(size)` returns is mapped to `0, 1, …, 2^size - 1` in order (row `k` of the space has index `k`: the batched
+form of `C19_index_roundtrip`). -/
+theorem C04_convert_basis_batch (sts : List (List Bool)) :
+    (convertBasisBatch sts).length = sts.length
+    ∧ (∀ i (hi : i < sts.length), (convertBasisBatch sts)[i]'(by simpa [convertBasisBatch] using hi)
+          = convertBasisElementToIndex sts[i]
+        ∧ convertBasisElementToIndex sts[i] = basisIndexL sts[i]
+        ∧ convertBasisElementToIndex sts[i] < 2 ^ sts[i].length)
+    ∧ (∀ i j (hi : i < sts.length) (hj : j < sts.length), sts[i].length = sts[j].length →
+        (convertBasisBatch sts)[i]'(by simpa [convertBasisBatch] using hi)
+          = (convertBasisBatch sts)[j]'(by simpa [convertBasisBatch] using hj) → sts[i] = sts[j])
+    ∧ (∀ (m : ℕ) (rows : List (Fin m → Bool)),
+        convertBasisBatch (rows.map fun σ => (List.finRange m).map σ) = rows.map idxOf)
+    ∧ (∀ (size : Option ℕ) (nv : ℕ) (sp : List (List Bool)), generateHilbertSpace size nv = .ok sp →
+        convertBasisBatch sp = List.range (2 ^ effSize size nv)) := by
+  refine ⟨by simp [convertBasisBatch], fun i hi => ⟨by simp [convertBasisBatch], convertBasisElementToIndex_eq _, ?_⟩, ?_, ?_, ?_⟩
+  · rw [convertBasisElementToIndex_eq]; exact basisIndexL_lt _
+  · intro i j hi hj hlen heq
+    simp only [convertBasisBatch, List.getElem_map, convertBasisElementToIndex_eq] at heq
+    rw [← maskRow_basisIndexL sts[i], ← maskRow_basisIndexL sts[j], heq, hlen]
+  · intro m rows
+    simp only [convertBasisBatch, List.map_map]
+    refine List.map_congr_left (fun σ _ => ?_)
+    simp only [Function.comp, convertBasisElementToIndex_eq]
+    exact C04_index_convention σ
+  · intro size nv sp hsp
+    unfold generateHilbertSpace at hsp
+    rw [spaceGuard_eq] at hsp
+    split_ifs at hsp with hbig
+    simp only [Except.ok.injEq] at hsp
+    subst hsp
+    simp only [convertBasisBatch, List.map_map]
+    conv_rhs => rw [← List.map_id (List.range (2 ^ effSize size nv))]
+    refine List.map_congr_left (fun k hk => ?_)
+    simp only [Function.comp, convertBasisElementToIndex_eq, basisIndexL_maskRow, id]
+    exact Nat.mod_eq_of_lt (List.mem_range.mp hk)
+
+/-- `C04_convert_basis_batch` on a concrete batch with rows of different content (and the injectivity hypothesis `equal lengths`
+satisfied): `[[1,0,1],[0,1,1],[1,0,1]] ↦ [5, 3, 5]`; and the 2-site space is mapped to `[0,1,2,3]`. -/
+example : convertBasisBatch [[true, false, true], [false, true, true], [true, false, true]] = [5, 3, 5]
+    ∧ (∃ sp, generateHilbertSpace (some 2) 7 = .ok sp ∧ convertBasisBatch sp = [0, 1, 2, 3]) := by
+  refine ⟨by decide, _, rfl, by decide⟩
+
 end QV.Props
